@@ -56,6 +56,25 @@ func DrawSXG(c *core.Ctx, label string, uniq int) *LSXG {
 	}
 	port := c.PickStr(label+".port", "", "", ":8443")
 	l.URL = fmt.Sprintf("https://%s%s/%s/doc%d%s", host, port, segs[c.Pick(label+".seg", 6)], uniq, c.PickStr(label+".q", "", "?v=1"))
+	if c.Chance(label+".rawURL", 1, 6) {
+		// forms that net/url would re-serialize differently: the library must carry the
+		// caller's string unchanged through signing, writing and reading
+		switch c.Pick(label+".rawURLkind", 6) {
+		case 0:
+			l.URL = "HTTPS" + l.URL[5:]
+		case 1:
+			l.URL += "#"
+		case 2:
+			l.URL = strings.Replace(l.URL, "/doc", "/a b|c^d/doc", 1)
+		case 3:
+			l.URL = strings.Replace(l.URL, "/doc", "/\u00e9\u3042/doc", 1)
+		case 4:
+			l.URL += "#frag ment"
+		default:
+			l.URL = strings.Replace(l.URL, "/doc", "/%7euser/%2F/doc", 1)
+		}
+		c.Probe("URL whose net/url re-serialization differs")
+	}
 	l.Method = "GET"
 	if l.Version != "1b3" {
 		l.Method = c.PickStr(label+".method", "GET", "GET", "HEAD")
@@ -101,6 +120,11 @@ func DrawSXG(c *core.Ctx, label string, uniq int) *LSXG {
 	// uniqueness also through a header (short payloads cannot carry the tag)
 	l.RespHeaders = append(l.RespHeaders, HV{"X-Uniq", tag})
 	l.Date = c.I64(label+".date", 1600000000, 1700000000)
+	if c.Chance(label+".farDate", 1, 6) {
+		// dates around the 31-, 32- and 40-bit boundaries (2038, 2106, year 36812)
+		base := c.PickI64(label+".dateBase", 1<<31, 1<<32, 1<<40, 1<<24)
+		l.Date = base + c.I64(label+".dateOff", -700000, 700000)
+	}
 	life := []int64{1, 30, 3600, 86400, 604799, 604800}
 	l.Expires = l.Date + life[c.Pick(label+".life", len(life))]
 	l.ValidityURL = fmt.Sprintf("https://%s%s/validity/%d", host, port, uniq)
